@@ -510,3 +510,67 @@ func (c *checker) checkC14(plan *GCPlan, rep *GCReport) {
 		}
 	}
 }
+
+// checkLockExclusion: "a locking read in a pessimistic transaction returns the newest committed value and nothing else
+// commits on that key until the locker ends". Judged only in runs without any lost, failed or delayed-by-fault message
+// and without a crash (a live client keeps its locks alive; only then is a successfully acquired lock certain to be
+// held from the return of LockKeys to the begin of the ending call): no other transaction's commit may be applied
+// on the key inside that interval. Transactions that used aggressive locking stages are not judged (their locks are
+// released and re-acquired by design).
+func (c *checker) checkLockExclusion() {
+	for _, r := range c.trace {
+		if r.Fate != simkit.Deliver && r.Fate != simkit.TopoSplit && r.Fate != simkit.TopoSplitAfter && r.Fate != simkit.TopoLeader {
+			return
+		}
+	}
+	// (start ts, key) -> stamp at which a request that commits the key for that transaction was executed successfully
+	applied := map[string]uint64{}
+	note := func(start uint64, key []byte, at uint64) {
+		k := fmt.Sprintf("%d/%s", start, key)
+		if old, ok := applied[k]; !ok || at < old {
+			applied[k] = at
+		}
+	}
+	for _, r := range c.trace {
+		if !r.Executed || r.Resp == nil || r.Resp.Resp == nil {
+			continue
+		}
+		if re, _ := r.Resp.GetRegionError(); re != nil {
+			continue
+		}
+		switch q := r.Req.Req.(type) {
+		case *kvrpcpb.CommitRequest:
+			if rp, ok := r.Resp.Resp.(*kvrpcpb.CommitResponse); ok && rp.GetError() == nil {
+				for _, k := range q.Keys {
+					note(q.StartVersion, k, r.ExecSeq)
+				}
+			}
+		case *kvrpcpb.PrewriteRequest:
+			if rp, ok := r.Resp.Resp.(*kvrpcpb.PrewriteResponse); ok && len(rp.GetErrors()) == 0 && rp.GetOnePcCommitTs() != 0 {
+				for _, m := range q.Mutations {
+					note(q.StartVersion, m.Key, r.ExecSeq)
+				}
+			}
+		}
+	}
+	for _, a := range c.hist {
+		if !a.Prog.Pessimistic || a.UsedAggressive || a.Cut || a.StartTS == 0 || a.EndInv == 0 {
+			continue
+		}
+		for k, f := range a.Locked {
+			from, ok := a.LockedAt[k]
+			if !ok {
+				continue
+			}
+			for _, w := range c.truth[k].Writes {
+				if w.StartTS == a.StartTS || (w.Kind != kvrpcpb.Op_Put && w.Kind != kvrpcpb.Op_Del) {
+					continue
+				}
+				at, ok := applied[fmt.Sprintf("%d/%s", w.StartTS, k)]
+				if ok && at > from && at < a.EndInv {
+					c.fail("C01", "lock-exclusion", fmt.Sprintf("txn%d.%s", a.Prog.ID, k), "txn %d (start %d) held a pessimistic lock on %q (LockKeys with for_update_ts %d returned at event %d, the transaction ended from event %d on), but the transaction with start %d committed %q at %d inside that interval (its commit was applied at event %d); no message was lost and no client died in this run", a.Prog.ID, a.StartTS, k, f, from, a.EndInv, w.StartTS, k, w.CommitTS, at)
+				}
+			}
+		}
+	}
+}
